@@ -1167,7 +1167,7 @@ func legBIP44() {
 			return
 		}
 		if err != nil || samePriv(ch, wantChain) != "" {
-			viol("key-mismatch", fn, "chain", in, fmt.Sprint(err)+" got "+ch.String()+" want "+wantChain.String())
+			viol("key-mismatch", fn, "chain", in, fmt.Sprint(err)+" got "+privStr(ch)+" want "+wantChain.String())
 			return
 		}
 		var leaf *bip32.PrivateKey
@@ -1349,4 +1349,12 @@ func main() {
 		"sentence validity follows the rules the bip39 package documents (single ASCII spaces, no surrounding white space, lower-case list words, allowed counts) together with the BIP39 checksum",
 		"IL >= n / zero-key children (probability < 2^-127) are skipped, not asserted",
 		"lib/refbip is checked against the published BIP32 (vectors 1 and 5), BIP39 (Trezor) and RIPEMD-160 vectors in its own tests")
+}
+
+// privStr prints a private key that may be nil (derivation failed)
+func privStr(k *bip32.PrivateKey) string {
+	if k == nil {
+		return "<nil>"
+	}
+	return k.String()
 }
